@@ -49,7 +49,19 @@ def family_of_exception(exc, handler=None):
         return "search-count-below-1"
     if head == "IndexError@key_binding/bindings/vi.py:_delete_before_multiple_cursors":
         return "multicursor-stale-backspace"
+    if head == "ValueError@key_binding/key_processor.py:arg":
+        return "arg-value-error"          # refined in judge() from the keys typed
     return exc
+
+
+def _digit_run_before(keys, j):
+    """number of digit keys typed directly before key j (the pending numeric argument)"""
+    n = 0
+    i = j - 1
+    while i >= 0 and len(keys[i]) == 1 and keys[i] in "0123456789":
+        n += 1
+        i -= 1
+    return n
 
 
 def judge(cfg, keys, r):
@@ -60,7 +72,12 @@ def judge(cfg, keys, r):
             out.append(({"clause": "hang"}, "key processing did not return within the watchdog", j))
             continue
         if exc:
-            out.append(({"clause": "exception", "family": family_of_exception(exc, a.get("handler"))},
+            fam = family_of_exception(exc, a.get("handler"))
+            if fam == "arg-value-error":
+                # C05-F14 only on evidence: the pending argument (KeyProcessor.arg before this key; the command
+                # reading it may have waited in the key buffer, e.g. `d` before `w`) has more digits than int() converts
+                fam = "arg-too-many-digits" if max(b.get("argdigits", 0), _digit_run_before(keys, j)) > 4300 else "arg-value-error-short"
+            out.append(({"clause": "exception", "family": fam},
                         "exception escapes the key processor: " + exc, j))
         for cl, tag in drv.oracle_state(a):
             if tag == "multicursor-range":
@@ -171,7 +188,10 @@ def explore_chunk(chunk):
             elif res["dispatch"][k] != outc:
                 res["fails"].append(({"clause": "dispatch-nondeterministic"}, "same valuation and keys, two outcomes", cfg, keys, 0))
         for hid, pre, arg, data, code, post, name in rec["handler"]:
-            if hid == 2:
+            if hid in (39, 40):
+                case = [7, pre, hid - 39]
+                result = [code, post]
+            elif hid == 2:
                 case = [5, hid, pre, arg, S(data)]
                 result = [code, post[9], post[10], post[11], post[12], post[13]]
             else:
@@ -192,6 +212,54 @@ def run_exploration(chk, cases, procs=4):
     else:
         parts = [explore_chunk(c) for c in chunks]
     return parts
+
+
+def show_keys(keys):
+    """keys for a message: runs of one token are written token*count (the replay file keeps the full list)"""
+    out, i = [], 0
+    while i < len(keys):
+        j = i
+        while j < len(keys) and keys[j] == keys[i]:
+            j += 1
+        out.append(keys[i] if j - i < 4 else "%s*%d" % (keys[i], j - i))
+        i = j
+    return " ".join(out)
+
+
+# --------------------------------------------------------------------------
+# KeyPressEvent.arg on the real class (model: event_arg, case kind 6)
+
+def arg_cases(chk):
+    rng = chk.rng
+    strs = [None, "-", "", "0", "5", "007", "999999", "1000000", "1000001", "12345678", "-7", "-007", "-0", "-999999",
+            "-1000000", "-12345678", "0" * 4300, "0" * 4301, "0" * 4301 + "5", "-" + "0" * 4290 + "1234567890", "-" + "1" * 4301]
+    strs += ["1" * k for k in (639, 640, 641, 4299, 4300, 4301, 5000)]
+    for _ in range(60 if chk.tier == "thorough" else 25):
+        n = rng.choice([1, 2, 3, 5, 6, 7, 8, 9, 12])
+        strs.append(("-" if rng.random() < 0.3 else "") + "".join(rng.choice("0123456789") for _ in range(n)))
+    for _ in range(6 if chk.tier == "thorough" else 2):
+        n = rng.randint(4290, 4310)
+        # (a negative argument of 19..4300 digits is returned as it is - an integer the wire format of the
+        # extracted model, 63-bit atoms, cannot carry: negative long strings are drawn beyond the limit only)
+        neg = rng.random() < 0.3
+        strs.append(("-" if neg else "") + "".join(rng.choice("0123456789") for _ in range(max(n, 4301) if neg else n)))
+    return [[6, ([] if s is None else [S(s)]), 1] for s in strs], strs      # 1 = the code since fix 7b1fd9f
+
+
+def impl_arg(s):
+    import weakref
+    from prompt_toolkit.key_binding.key_processor import KeyPressEvent
+
+    class _P:
+        pass
+    p = _P()
+    ev = KeyPressEvent(weakref.ref(p), s, [], [], False)
+    try:
+        return [0, ev.arg]
+    except ValueError:
+        return [4]
+    except AssertionError:
+        return [1]
 
 
 def shrink(cfg, keys, tags, budget=40):
@@ -534,7 +602,10 @@ def gen_explore_cases(chk, all_keys):
         cases.append((cfg, keys))
         dist["search_family"] += 1
     for name, fam in (("ctrl_o_family", gen.ctrl_o_family), ("history_count_family", gen.history_count_family),
-                      ("search_history_family", gen.search_history_family), ("completion_family", gen.completion_family)):
+                      ("search_history_family", gen.search_history_family), ("completion_family", gen.completion_family),
+                      ("long_arg_family", gen.long_arg_family), ("yank_arg_family", gen.yank_arg_family),
+                      ("empty_line_operator_family", gen.empty_line_operator_family),
+                      ("insert_completion_family", gen.insert_completion_family)):
         dist[name] = 0
         for cfg, keys in fam(thorough):
             cases.append((cfg, keys))
@@ -607,7 +678,7 @@ def main(tier):
             keys = shrink(cfg, keys, tags)
             oracle_failed_any = True
         for _ in range(cnt if known is not None else 1):
-            chk.violation("oracle", "%s; config=%s keys=%s" % (clause, json.dumps(cfg, ensure_ascii=False), " ".join(keys)),
+            chk.violation("oracle", "%s; config=%s keys=%s" % (clause, json.dumps(cfg, ensure_ascii=False), show_keys(keys)),
                           tags, {"cfg": cfg, "keys": keys, "clause": clause,
                                  "how": "PromptSession on pipe input + DummyOutput; keys fed one by one through app.key_processor (harness/c05_drive.py run_case)"})
     if hangs:
@@ -642,9 +713,24 @@ def main(tier):
         if bad:
             f_bad.add(i)
             chk.violation("oracle", bad, {"clause": "vi-nav-cursor", "layer": "fix"}, {"case": c, "clause": bad})
-    allcases = dcases + hcases + bcases + fcases
-    allres = dres + hres + bres + fres
+    acases, astrs = arg_cases(chk)
+    ares, a_bad = [], set()
+    for i, (c, s) in enumerate(zip(acases, astrs)):
+        r = with_watchdog(lambda: impl_arg(s), 10)
+        ares.append(r)
+        chk.count_case(c, s not in (None, "", "-"))
+        if r[0] != 0:
+            # property text: no exception escapes (event.arg is evaluated inside the key handlers)
+            a_bad.add(i)
+            nd_ = len((s or "").lstrip("-"))
+            chk.violation("oracle", "KeyPressEvent.arg raises %s for an argument of %d digits (%s)"
+                          % ({4: "ValueError", 1: "AssertionError"}.get(r[0], "?"), nd_, (s or "")[:12] + ("..." if len(s or "") > 12 else "")),
+                          {"clause": "exception", "family": "arg-too-many-digits" if nd_ > 4300 else "arg-value-error-short",
+                           "layer": "event-arg"}, {"arg": s, "how": "KeyPressEvent(ref, arg, [], [], False).arg"})
+    allcases = dcases + hcases + bcases + fcases + acases
+    allres = dres + hres + bres + fres + ares
     nd, nh, nb = len(dcases), len(hcases), len(bcases)
+    nf = len(fcases)
     for c in dcases:
         chk.count_case(c, True)
     for c in hcases:
@@ -654,7 +740,7 @@ def main(tier):
         k = c[0]
         if k == 1:
             return {"layer": "dispatch", "keys": json.dumps(c[2])}
-        if k in (2, 5):
+        if k in (2, 5, 7):
             i = allcases.index(c)
             return {"layer": "handler", "handler": hnames[i - nd].split(".")[-1] if nd <= i < nd + nh else "?"}
         if k == 3:
@@ -662,6 +748,8 @@ def main(tier):
                 if x != y:
                     return {"layer": "buffer", "op": BOPS.get(c[2][j][0], "?")}
             return {"layer": "buffer"}
+        if k == 6:
+            return {"layer": "event-arg"}
         return {"layer": "?"}
 
     def oracle_failed(i):
@@ -669,7 +757,9 @@ def main(tier):
             return oracle_failed_any
         if i < nd + nh + nb:
             return (i - nd - nh) in b_bad
-        return (i - nd - nh - nb) in f_bad
+        if i < nd + nh + nb + nf:
+            return (i - nd - nh - nb) in f_bad
+        return (i - nd - nh - nb - nf) in a_bad
 
     model_results, nbad = correspondence(
         chk, "c05", allcases, allres, tagger,
@@ -708,13 +798,15 @@ def main(tier):
         chk.sample({"handler_case": str(hcases[0])[:300], "handler": hnames[0], "result": str(hres[0])[:200]})
     chk.assumptions += [
         "proved: buffer layer (18 mutators), Vi cursor fix, Escape dispatch over the regenerated table for all atom valuations, 38 handler models; "
-        "also proved: working index within range (all mutators), multiple-cursor range invariant of the five insert-multiple handlers, dispatch soundness for any key buffer, "
-        "Escape with 0, 1 or 2 pending keys over the regenerated table; everything else (the other ~290 handlers, Escape behind 3 or more pending keys, "
-        "entering insert-multiple mode, completion/search/undo state) is explored with the oracle, not proved",
-        "Escape theorem hypotheses: vi_mode, not emacs_mode, buffer_has_focus, not in_quoted_insert, key buffer empty before Escape",
+        "also proved: working index within range (all mutators), multiple-cursor range invariant for entering insert-multiple mode and for its five editing handlers, dispatch soundness for any key buffer, "
+        "Escape behind ANY key buffer over the regenerated table (induction over the retry loop of _process; at most two keys are ever pending), "
+        "KeyPressEvent.arg with int()'s 4300-digit limit (total since fix 7b1fd9f, the code before it pinned with its refuted witness); "
+        "everything else (the other ~290 handlers, "
+        "foreign edits in insert-multiple mode, completion/search/undo state, the accumulation of the argument string) is explored with the oracle, not proved",
+        "Escape theorem hypotheses: vi_mode, not emacs_mode, buffer_has_focus, not in_quoted_insert at every evaluation of the retry loop, application not finished",
         "accept_search is modelled only in its effect on the Vi state (its early returns are unreachable under its is_searching filter)",
         "history search (enable_history_search), completion state and BLOCK clipboard data are outside the Buffer model",
-        "multiple-cursor range: invariant theorem for the five insert-multiple handlers (C05_multicursor_inv); entering the mode and foreign edits while in it are oracle + correspondence only",
+        "multiple-cursor range: invariant theorem for the five insert-multiple handlers (C05_multicursor_inv) and for entering the mode (C05_enter_insert_multiple); foreign edits while in it are oracle + correspondence only",
         "mouse events, CPR responses with malformed data, suspend, open-in-editor and system prompt keys are not key presses of the quantifier and are not fed",
         "a hang (e.g. recursive macro) is a liveness observation outside the property text: recorded as NOTE, not claimed",
     ]
@@ -726,13 +818,26 @@ def replay(data):
     if "cfg" in rep:
         r = drv.run_case(rep["cfg"], rep["keys"])
         rc = 0
-        for tok, exc, b, a in r["trace"]:
+        n = len(r["trace"])
+        for i, (tok, exc, b, a) in enumerate(r["trace"]):
+            if n > 200 and not exc and 20 <= i < n - 5:
+                if i == 20:
+                    print("... (%d keys without exception not shown)" % (n - 25))
+                continue
             print("%-12s exc=%s text=%r cursor=%d mode=%s op=%s sel=%s mc=%s" % (tok, exc, a["text"], a["cur"], a["mode"], a["op"], a["sel"], a["mc"]))
         for tags, cl, j in judge(rep["cfg"], rep["keys"], r):
             print("ORACLE FAILS at key %d (%s): %s %r" % (j, rep["keys"][j] if j < len(rep["keys"]) else "?", cl, tags))
             rc = 1
         print("outcome:", r["outcome"])
         return rc
+    if "arg" in rep:
+        r = impl_arg(rep["arg"])
+        s = rep["arg"] or ""
+        print("KeyPressEvent.arg for an argument string of %d characters (%s...) -> %s"
+              % (len(s), s[:12], {0: "value %r" % (r[1:],), 4: "ValueError", 1: "AssertionError"}[r[0]]))
+        if r[0] != 0:
+            print("ORACLE FAILS: an exception escapes (event.arg is evaluated inside the key handler)")
+        return 0 if r[0] == 0 else 1
     case = rep["case"]
     if case[0] == 3:
         out, trace = impl_bops(case)
